@@ -240,9 +240,12 @@ def _fuzz_front(seed, runs):
 def c07(tier, seed):
     res = common.Result()
     dbg = build("dbg")
-    ra = run_engine(dbg, "front", 1000000, seed, {"stage": "A"}, build_name="dbg", timeout_case=30, stall_is="failure")
+    ra = run_engine(dbg, "front", 1000000, seed, {"stage": "A"}, build_name="dbg", timeout_case=30, stall_is="failure", alloc_failure_is="failure")
     stage_a = ra.extra.get("stage_a_size")
     res.absorb(ra)
+    rr = run_engine(dbg, "front", 1000000, seed, {"stage": "R"}, build_name="dbg", timeout_case=30, stall_is="failure", alloc_failure_is="failure")
+    stage_r = rr.extra.get("stage_r_size")
+    res.absorb(rr)
     if tier == "quick":
         plan = [(dbg, "dbg", "B", 12), (dbg, "dbg", "C", 700), (dbg, "dbg", "D", 350)]
     else:
@@ -251,13 +254,14 @@ def c07(tier, seed):
                 (asan, "asan", "A", 1000000), (asan, "asan", "B", 300), (asan, "asan", "C", 20000), (asan, "asan", "D", 10000)]
     for (binary, name, stage, cnt) in plan:
         c = cnt if cnt >= 1000000 else n(cnt)
-        res.absorb(run_engine(binary, "front", c, seed, {"stage": stage}, build_name=name, timeout_case=30, stall_is="failure"))
+        res.absorb(run_engine(binary, "front", c, seed, {"stage": stage}, build_name=name, timeout_case=30, stall_is="failure", alloc_failure_is="failure"))
     if tier == "thorough":
         res.absorb(_fuzz_front(seed, n(3000000)))
     triage(res)
     res.extra["stage_a_size"] = stage_a
+    res.extra["stage_r_size"] = stage_r
     return finish("C07", tier, seed, "exploration", res,
-                  "inputs: (A) adjacency matrix enumerated completely: ~95 token texts (every keyword incl. multi-word keywords and their proper prefixes, identifiers, number forms `1.` `1.x` `1x`, strings in both quote styles with every escape / invalid escape / trailing back-slash / unterminated / brace forms, punctuation, comments, unexpected characters) x 22 neighbours (blank, TAB, LF, CR, CRLF, FF, letter, digit, `_`, `.`, quotes, 2/3/4-byte characters, U+0085, U+00A0, NUL, `#`, back-slash) x {before, after, both, at every interior character boundary} x 4 hosts; (B) every prefix and every single-character deletion of generated valid programs; (C) 1-4 token-level mutations (delete, duplicate, swap, insert junk/multi-byte, replace) of valid programs; (D) random concatenations of tokens and junk. Oracle per input: lex+parse (+ static check after a clean parse, as shipped) must return without panic/abort/signal/sanitizer report; every diagnostic span and label span must satisfy start <= end <= len with both ends on character boundaries; the set must render with render_ansi to valid UTF-8; a worker making no progress for 30 s fails the case (typical input: 50 us). Non-trivial = produced at least one diagnostic or contains a multi-byte character; distinct = hash of the text",
+                  "inputs: (A) adjacency matrix enumerated completely: ~95 token texts (every keyword incl. multi-word keywords and their proper prefixes, identifiers, number forms `1.` `1.x` `1x`, strings in both quote styles with every escape / invalid escape / trailing back-slash / unterminated / brace forms, punctuation, comments, unexpected characters) x 22 neighbours (blank, TAB, LF, CR, CRLF, FF, letter, digit, `_`, `.`, quotes, 2/3/4-byte characters, U+0085, U+00A0, NUL, `#`, back-slash) x {before, after, both, at every interior character boundary} x 4 hosts; (R) ~5 000 small programs whose function return types depend on their own inferred types (every operator/method shape around a self call, a mutual call and a call chain, literals of every type on the other side), enumerated completely: the checker's return-type inference must terminate on all of them; (B) every prefix and every single-character deletion of generated valid programs; (C) 1-4 token-level mutations (delete, duplicate, swap, insert junk/multi-byte, replace) of valid programs; (D) random concatenations of tokens and junk. Oracle per input: lex+parse (+ static check after a clean parse, as shipped) must return without panic/abort/signal/sanitizer report; every diagnostic span and label span must satisfy start <= end <= len with both ends on character boundaries; the set must render with render_ansi to valid UTF-8; a worker making no progress for 30 s fails the case (typical input: 50 us), and so does exhausting the 256 MiB arenas on these tiny inputs. Non-trivial = produced at least one diagnostic or contains a multi-byte character; distinct = hash of the text",
                   ["inputs are at most ~1 KiB: larger inputs only multiply diagnostics (the renderer allocates O(len) per diagnostic, so huge garbage ends in arena exhaustion, a resource outcome)",
                    "the static checker is run only after a clean parse, which is how every shipped entry point wires it",
                    "the clause 'a text is only executed if it produced no error-level diagnostic' is decided through the CLI in C14"],
